@@ -1,27 +1,46 @@
 // Engine `match` (C05).
 //
 //   M <pattern-hex> <address-hex> <tags-hex> [tokens for the oracle, ignored]
-//       -> P <offset of the pointer returned by rtosc_match_path | NULL>
-//          M <rtosc_match 0|1>
-//          A <arg_matcher(first ':' of the pattern, tags) 0|1|->
-//          B <Port_Matcher::rtosc_match_args(first ':' of the pattern, msg) 0|1|->
+//       -> P  <rtosc_match_path(pattern, address, NULL)  1 | NULL>
+//          M  <rtosc_match(pattern, message, NULL)        0|1>
+//          A  <arg_matcher(first ':' of the pattern, tags) 0|1 | - no ':' | x the function is gone>
+//          B  <Port_Matcher::rtosc_match_args(first ':' of the pattern, msg) 0|1|-|x>
+//          Pe <rtosc_match_path(pattern, address, &end)   1 | NULL>
+//          Me <rtosc_match(pattern, message, &end)        0|1>
+//       Only verdicts are printed (the property observes "matches / does not match"): neither
+//       the offset of the returned pattern pointer nor *path_end.
+//   U <pattern-hex> <address-hex> <tags-hex> [ignored]
+//       inputs outside the property's quantifier (indices beyond 9 digits, patterns that are
+//       not of the documented form): the same calls are made, under the sanitizers, and only
+//       the fact that they returned is reported:  -> U ok
 //   X <pattern-hex> <alphabet-hex> <maxlen> <tags-hex>,<tags-hex>,... [ignored]
 //       every address over the alphabet up to length maxlen, in order of length and then
 //       of alphabet position:
 //       -> X <#addresses matched by rtosc_match_path> <hash of them>
 //            <#matched by rtosc_match>:<hash> for each tag string
 //
-// The pattern lives in an exact-size heap block (pattern bytes + NUL), the address handed
-// to rtosc_match_path likewise.  The message handed to rtosc_match is built by
-// rtosc_amessage from the address and all-zero arguments of the given types and is
-// followed by SLACK zero bytes: rtosc_match_args keeps advancing arg_str after the type
-// string has ended, which the property does not speak about (see tools/props/c05.py).
+// Every buffer handed to the library is an exact-size heap block (or ends where its heap
+// block ends): the pattern (bytes + NUL), the address (bytes + NUL), the type string for
+// arg_matcher (bytes + NUL) and the message, which is built by rtosc_amessage from the
+// address and all-zero arguments of the given types — no spare byte behind it, so ASan sees
+// any read behind the message (fixes/C05-args-overread.patch repaired one).
 #include "common.h"
 #include <rtosc/rtosc.h>
 #include "ports.cpp"
 using namespace vh;
 
-static const size_t SLACK = 32;
+// The two copies of the type matcher in ports.cpp are called if they (still) exist: a tree in
+// which the unused `arg_matcher` was removed or the copies were merged must still build.
+namespace {
+struct AnyArg { template <class T> AnyArg(T) {} };
+}
+static inline int arg_matcher(AnyArg, AnyArg) { return 2; }   // chosen only if ports.cpp has none
+template <class T>
+static auto call_pm(T &pm, const char *s, const char *m, int) -> decltype(pm.rtosc_match_args(s, m), int()) {
+    return pm.rtosc_match_args(s, m) ? 1 : 0;
+}
+template <class T> static int call_pm(T &, const char *, const char *, long) { return 2; }
+static const char *show012(int v) { return v == 2 ? "x" : v ? "1" : "0"; }
 
 static bool known_tag(unsigned char t) { return strchr("ifcrmsSbhdtTFNI", t) && t; }
 static size_t zero_arg_size(unsigned char t) {
@@ -30,14 +49,14 @@ static size_t zero_arg_size(unsigned char t) {
     return 0;
 }
 
-// message for (address, tags) with all-zero arguments, followed by SLACK zero bytes
+// message for (address, tags) with all-zero arguments, exactly its size
 static void build_msg(const bytes &addr, const bytes &tags, bytes &out) {
     size_t n = addr.size() + (4 - addr.size() % 4);
     n += 1 + tags.size();
     n += 4 - n % 4;
     bool all_known = true;
     for (unsigned char t : tags) { n += zero_arg_size(t); all_known &= known_tag(t); }
-    out.assign(n + SLACK, 0);
+    out.assign(n, 0);
     if (all_known) {
         std::string a((const char *)addr.data(), addr.size()), t((const char *)tags.data(), tags.size());
         std::vector<rtosc_arg_t> av(tags.size() + 1);
@@ -51,7 +70,7 @@ static void build_msg(const bytes &addr, const bytes &tags, bytes &out) {
         }
         size_t got = rtosc_amessage((char *)out.data(), n, a.c_str(), t.c_str(), av.data());
         if (got != n) { fprintf(stderr, "rtosc_amessage wrote %zu, expected %zu\n", got, n); abort(); }
-    } else { // type characters rtosc_amessage does not know: same layout by hand, no payload
+    } else { // type characters rtosc_amessage does not know ('[' ']' …): same layout by hand
         if (!addr.empty()) memcpy(out.data(), addr.data(), addr.size());
         size_t p = addr.size() + (4 - addr.size() % 4);
         out[p] = ',';
@@ -61,7 +80,7 @@ static void build_msg(const bytes &addr, const bytes &tags, bytes &out) {
 
 static const char *first_colon(const char *pat) { return strchr(pat, ':'); }
 
-static std::string op_M(const std::vector<std::string> &w) {
+static std::string op_M(const std::vector<std::string> &w, bool verdicts) {
     bytes pat, addr, tags;
     if (w.size() < 4 || !unhex(w[1], pat) || !unhex(w[2], addr) || !unhex(w[3], tags)) return "bad-op";
     pat.push_back(0);
@@ -73,21 +92,27 @@ static std::string op_M(const std::vector<std::string> &w) {
     build_msg(addr, tags, msg);
     Exact M(msg);
     bytes t0 = tags;
-    t0.insert(t0.end(), SLACK + 1, 0);
+    t0.push_back(0);
     Exact T(t0);
 
     std::ostringstream o;
     const char *r = rtosc_match_path(P.c(), A.c(), NULL);
-    if (r) o << "P " << (r - P.c()); else o << "P NULL";
+    o << "P " << (r ? "1" : "NULL");
     o << " M " << (rtosc_match(P.c(), M.c(), NULL) ? 1 : 0);
     const char *spec = first_colon(P.c());
     if (spec) {
         rtosc::Port_Matcher pm(1);
-        o << " A " << (arg_matcher(spec, T.c()) ? 1 : 0);
-        o << " B " << (pm.rtosc_match_args(spec, M.c()) ? 1 : 0);
+        o << " A " << show012(arg_matcher(spec, (const char *)T.c()));
+        o << " B " << show012(call_pm(pm, spec, M.c(), 0));
     } else
         o << " A - B -";
-    return o.str();
+    // the same two calls with path_end != NULL (what Ports::dispatch does)
+    const char *end = NULL;
+    r = rtosc_match_path(P.c(), A.c(), &end);
+    o << " Pe " << (r ? "1" : "NULL");
+    end = NULL;
+    o << " Me " << (rtosc_match(P.c(), M.c(), &end) ? 1 : 0);
+    return verdicts ? o.str() : std::string("U ok");
 }
 
 static inline void mix(uint64_t &h, const unsigned char *s, size_t n) {
@@ -111,30 +136,41 @@ static std::string op_X(const std::vector<std::string> &w) {
     std::vector<uint64_t> mc(tagv.size(), 0), mh(tagv.size(), 0);
     // In this mode the messages are laid out by hand (same bytes as build_msg produces, which
     // op_M checks against rtosc_amessage): address, NUL padding, ",tags", NUL padding, zero
-    // payload, SLACK zero bytes.
+    // payload.  One heap block is used for all of them; each message is placed so that it ENDS
+    // where the block ends (a read behind the message is a heap-buffer-overflow for ASan).
+    // rtosc_match_path is called with path_end == NULL, rtosc_match with path_end != NULL.
     std::vector<size_t> tail(tagv.size());
+    size_t maxtail = 0;
     for (size_t j = 0; j < tagv.size(); ++j) {
         size_t n = 1 + tagv[j].size();
         n += 4 - n % 4;
         for (unsigned char t : tagv[j]) n += zero_arg_size(t);
-        tail[j] = n + SLACK;
+        tail[j] = n;
+        if (n > maxtail) maxtail = n;
     }
-    std::vector<unsigned char> buf(maxlen + 8 + 64 + 16 * 8 + SLACK);
-    std::vector<unsigned char> a0(maxlen + 1);
+    if (maxlen < 0 || maxlen > 64) return "bad-op";
+    size_t cap = maxlen + 4 + maxtail;
+    Exact B(cap, 0);
+    unsigned char *bend = B.p + cap;
+    Exact A0(maxlen + 1, 0);
     for (int len = 0; len <= maxlen; ++len) {
         std::vector<int> idx(len, 0);
         size_t apad = len + (4 - len % 4);
+        // the address, as a C string that ends where its block ends
+        unsigned char *a0 = A0.p + (maxlen - len);
         while (true) {
             for (int i = 0; i < len; ++i) a0[i] = alph[idx[i]];
             a0[len] = 0;
-            if (rtosc_match_path(P.c(), (const char *)a0.data(), NULL)) { pc++; mix(ph, a0.data(), len); }
+            if (rtosc_match_path(P.c(), (const char *)a0, NULL)) { pc++; mix(ph, a0, len); }
             for (size_t j = 0; j < tagv.size(); ++j) {
-                if (apad + tail[j] > buf.size()) return "bad-op";
-                memset(buf.data(), 0, apad + tail[j]);
-                memcpy(buf.data(), a0.data(), len);
-                buf[apad] = ',';
-                if (!tagv[j].empty()) memcpy(buf.data() + apad + 1, tagv[j].data(), tagv[j].size());
-                if (rtosc_match(P.c(), (const char *)buf.data(), NULL)) { mc[j]++; mix(mh[j], a0.data(), len); }
+                size_t n = apad + tail[j];
+                unsigned char *m = bend - n;
+                memset(m, 0, n);
+                memcpy(m, a0, len);
+                m[apad] = ',';
+                if (!tagv[j].empty()) memcpy(m + apad + 1, tagv[j].data(), tagv[j].size());
+                const char *end = NULL;
+                if (rtosc_match(P.c(), (const char *)m, &end)) { mc[j]++; mix(mh[j], a0, len); }
             }
             int k = len - 1;
             while (k >= 0 && ++idx[k] == (int)alph.size()) idx[k--] = 0;
@@ -150,7 +186,8 @@ static std::string op_X(const std::vector<std::string> &w) {
 static std::string step(const std::string &line) {
     auto w = words(line);
     if (w.empty()) return "bad-op";
-    if (w[0] == "M") return op_M(w);
+    if (w[0] == "M") return op_M(w, true);
+    if (w[0] == "U") return op_M(w, false);
     if (w[0] == "X") return op_X(w);
     return "bad-op";
 }
